@@ -256,6 +256,46 @@ def B_trace(name, fam, n, maxops=10, mode='value', legacy=False, plain=False, ca
     return run
 
 
+def T_only(module, name, consts, invariants=(), properties=(), spec='MCSpec', timeout=3000):
+    """TLC on the specification alone (design level): no emission, nothing is executed on the code."""
+    def run(ctx):
+        t0 = time.time()
+        cfg = ctx.write_cfg('tlc_' + name, spec, consts, invariants=invariants, properties=properties)
+        p = subprocess.run(['timeout', str(timeout)] + ctx.tlc_cmd(module, cfg), cwd=ctx.specdir(), env=ctx.env, capture_output=True, text=True)
+        if p.returncode == 124:
+            raise Broken('stage %s: TLC timed out after %ds' % (name, timeout))
+        gen, dist = ctx.parse_tlc_log(p.stdout + p.stderr, name)
+        ctx.cov['states'] += dist
+        ctx.cov['stages'].append({'stage': name, 'module': module, 'direction': 'TLC on the specification only', 'constants': consts,
+                                  'invariants': list(invariants), 'properties': list(properties), 'tlc_states_generated': gen,
+                                  'tlc_distinct_states': dist, 'wall_s': round(time.time() - t0, 1)})
+    return run
+
+
+def T_depth(name, maxlen, sigma='tiny'):
+    return T_only('MCScanner', name, {'MaxLen': maxlen, 'SigmaId': '"%s"' % sigma, 'EmitOn': 'FALSE', 'MaxDepth': 3, 'MaxNest': 3},
+                  invariants=('ScanOK', 'LanguageEq', 'ErrorAbsorbs', 'TransducersOK'), spec='SSpec')
+
+
+def P_apalache(name, module, inv, timeout=600):
+    """An unbounded lemma discharged by Apalache (symbolic, all integers): design level, nothing is executed on the code."""
+    def run(ctx):
+        t0 = time.time()
+        d = os.path.join(ctx.scratch, 'apalache_' + name)
+        os.makedirs(d, exist_ok=True)
+        for f in os.listdir(ctx.specdir()):
+            if f.endswith('.tla'):
+                shutil.copy(os.path.join(ctx.specdir(), f), d)
+        p = subprocess.run(['timeout', str(timeout), 'apalache-mc', 'check', '--length=0', '--inv=' + inv, module + '.tla'],
+                           cwd=d, env=ctx.env, capture_output=True, text=True)
+        out = p.stdout + p.stderr
+        if 'EXITCODE: OK' not in out or 'The outcome is: NoError' not in out:
+            raise Broken('stage %s: Apalache did not discharge %s!%s:\n%s' % (name, module, inv, out[-1500:]))
+        ctx.cov['stages'].append({'stage': name, 'module': module, 'direction': 'Apalache, unbounded integers', 'invariant': inv,
+                                  'outcome': 'NoError', 'wall_s': round(time.time() - t0, 1)})
+    return run
+
+
 V_ALL = list(range(1, 14))
 S_ALL = list(range(1, 12))
 O_ALL = list(range(1, 12))
@@ -451,46 +491,6 @@ PLANS.update({
         'required_labels': {'quick': ['Decode_true', 'Decode_false'], 'thorough': ['Decode_true', 'Decode_false']},
     },
 })
-
-
-def T_only(module, name, consts, invariants=(), properties=(), spec='MCSpec', timeout=3000):
-    """TLC on the specification alone (design level): no emission, nothing is executed on the code."""
-    def run(ctx):
-        t0 = time.time()
-        cfg = ctx.write_cfg('tlc_' + name, spec, consts, invariants=invariants, properties=properties)
-        p = subprocess.run(['timeout', str(timeout)] + ctx.tlc_cmd(module, cfg), cwd=ctx.specdir(), env=ctx.env, capture_output=True, text=True)
-        if p.returncode == 124:
-            raise Broken('stage %s: TLC timed out after %ds' % (name, timeout))
-        gen, dist = ctx.parse_tlc_log(p.stdout + p.stderr, name)
-        ctx.cov['states'] += dist
-        ctx.cov['stages'].append({'stage': name, 'module': module, 'direction': 'TLC on the specification only', 'constants': consts,
-                                  'invariants': list(invariants), 'properties': list(properties), 'tlc_states_generated': gen,
-                                  'tlc_distinct_states': dist, 'wall_s': round(time.time() - t0, 1)})
-    return run
-
-
-def T_depth(name, maxlen, sigma='tiny'):
-    return T_only('MCScanner', name, {'MaxLen': maxlen, 'SigmaId': '"%s"' % sigma, 'EmitOn': 'FALSE', 'MaxDepth': 3, 'MaxNest': 3},
-                  invariants=('ScanOK', 'LanguageEq', 'ErrorAbsorbs', 'TransducersOK'), spec='SSpec')
-
-
-def P_apalache(name, module, inv, timeout=600):
-    """An unbounded lemma discharged by Apalache (symbolic, all integers): design level, nothing is executed on the code."""
-    def run(ctx):
-        t0 = time.time()
-        d = os.path.join(ctx.scratch, 'apalache_' + name)
-        os.makedirs(d, exist_ok=True)
-        for f in os.listdir(ctx.specdir()):
-            if f.endswith('.tla'):
-                shutil.copy(os.path.join(ctx.specdir(), f), d)
-        p = subprocess.run(['timeout', str(timeout), 'apalache-mc', 'check', '--length=0', '--inv=' + inv, module + '.tla'],
-                           cwd=d, env=ctx.env, capture_output=True, text=True)
-        out = p.stdout + p.stderr
-        if 'EXITCODE: OK' not in out or 'The outcome is: NoError' not in out:
-            raise Broken('stage %s: Apalache did not discharge %s!%s:\n%s' % (name, module, inv, out[-1500:]))
-        ctx.cov['stages'].append({'stage': name, 'module': module, 'direction': 'Apalache, unbounded integers', 'invariant': inv,
-                                  'outcome': 'NoError', 'wall_s': round(time.time() - t0, 1)})
-    return run
 
 
 def A_words(name, maxlen, sigma, depth=10000, **kw):
